@@ -58,7 +58,7 @@ func c07Collect(c *Ctx, p *Prog, m *Model) {
 			return false
 		}
 		cal := calleeOf(call)
-		if cal == nil || (cal.Name() != "IsAnyBitsSet" && cal.Name() != "IsAllBitsSet") {
+		if cal == nil || (nm(cal) != "IsAnyBitsSet" && nm(cal) != "IsAllBitsSet") {
 			return false
 		}
 		v, ok := constInt(call.Common().Args[0])
@@ -70,7 +70,7 @@ func c07Collect(c *Ctx, p *Prog, m *Model) {
 			return "flag", true
 		}
 		if call, ok := cond.(*ssa.Call); ok {
-			if cal := calleeOf(call); cal != nil && cal.Name() == "ctxKeysWanted" {
+			if cal := calleeOf(call); cal != nil && nm(cal) == "ctxKeysWanted" {
 				return "ctxkeys", true
 			}
 		}
@@ -488,7 +488,7 @@ func c07Sort(c *Ctx, p *Prog, m *Model) {
 				for _, fs := range fieldStores(fn) {
 					if fs.Struct == "PrintCtx" && fs.Field == "dedupeAttrs" {
 						n++
-						if b, isC := constBool(fs.Val); !isC || !b || fn.Name() != "newPrintCtx" {
+						if b, isC := constBool(fs.Val); !isC || !b || nm(fn) != "newPrintCtx" {
 							bad = shortName(fn) + " stores " + m.valDesc(fs.Val)
 						}
 					}
@@ -514,7 +514,7 @@ func c07Sort(c *Ctx, p *Prog, m *Model) {
 		}
 		for _, cs := range callsIn(fn) {
 			if invokeName(cs) == "Key" {
-				if n := namedOf(cs.Common().Value.Type()); n != nil && n.Obj().Name() == "Attr" {
+				if n := namedOf(cs.Common().Value.Type()); n != nil && nm(n.Obj()) == "Attr" {
 					if fn.Parent() != nil && fn.Parent() == sa {
 						continue
 					}
